@@ -25,6 +25,14 @@ def keys(srcs, props):
         if st == "ok": out |= {(pr,) + f.key() for f in F}
         else: out.add((pr, st, (msg or "")[:160], ""))
     return out
+_JOB = None
+_TODO = []
+
+
+def _job_proxy(i):
+    return _JOB(_TODO[i])
+
+
 def main():
     args = [a for a in sys.argv[1:] if not a.startswith("--")]
     benign = "--benign" in sys.argv
@@ -40,15 +48,25 @@ def main():
         from corpus2 import M as M2
         items = list(M1) + list(M2)
     caught = silent = na = 0
+    todo = []
     for mid, prop, file, old, new, rule in items:
         if args and not any(mid.startswith(a) or prop.startswith(a) or rule.startswith(a) for a in args): continue
         if prop[:3] not in props and not benign: continue
+        todo.append((mid, prop, file, old, new, rule))
+    global _JOB
+    def _JOB(item):
+        mid, prop, file, old, new, rule = item
         fname = file.split("/")[-1]
-        res = None
         for label, srcs in trees:
             if srcs[fname].count(old) != 1: continue
             s2 = dict(srcs); s2[fname] = srcs[fname].replace(old, new)
-            res = (label, keys(s2, props) - base[label]); break
+            return (label, keys(s2, props) - base[label])
+        return None
+    _TODO[:] = todo
+    import concurrent.futures as cf, multiprocessing
+    with cf.ProcessPoolExecutor(14, mp_context=multiprocessing.get_context("fork")) as ex:
+        results = list(ex.map(_job_proxy, range(len(todo))))
+    for (mid, prop, file, old, new, rule), res in zip(todo, results):
         if res is None:
             na += 1; print(f"{mid:34s} expect {rule:16s} -> n/a"); continue
         label, new_keys = res
